@@ -124,7 +124,9 @@ Enter(st, out, cfg, refs, ev) ==
     [] k \in {Text, Unparsed} -> Push(Put(st, out, EscapeText(t)), k, FALSE)
     [] k = CharRef -> Push(Put(st, out, t), k, FALSE)
     [] k = RawHtml -> Push(IF cfg.raw = 1 THEN st ELSE IF cfg.filt = 0 THEN Put(st, out, t) ELSE PutFiltered(st, out, t, 1), k, FALSE)
-    [] k = Soft -> Push(Put(st, out, IF cfg.soft = 2 THEN Open(cfg, <<98, 114>>) \o <<10>> ELSE IF cfg.soft = 1 THEN <<32>> ELSE IF t = <<>> THEN <<10>> ELSE t), k, FALSE)
+    \* inside a code block the (synthetic, zero-length) soft break is the line ending of the last code line, in every configuration
+    [] k = Soft -> Push(Put(st, out, IF st.stack[Len(st.stack)].k \in {ICode, FCode} THEN (IF t = <<>> THEN <<10>> ELSE t)
+                                     ELSE IF cfg.soft = 2 THEN Open(cfg, <<98, 114>>) \o <<10>> ELSE IF cfg.soft = 1 THEN <<32>> ELSE IF t = <<>> THEN <<10>> ELSE t), k, FALSE)
     [] k = Hard -> Push(Put(st, out, Open(cfg, <<98, 114>>) \o <<10>>), k, FALSE)
     [] k = Indent -> Push(Put(st, out, Repeat(32, ev[6])), k, FALSE)
     [] k = Emph -> Push(Put(st, out, Open(cfg, S("em"))), k, FALSE)
